@@ -896,11 +896,18 @@ func expectedByPath(v *model.Variant) (map[string][]*memberSpec, error) {
 	seen := map[string]bool{}
 	for _, e := range enumsOf(v) {
 		for _, h := range e.holders {
-			ep := strings.SplitN(strings.TrimPrefix(h.f.Entry.Path(), "/"), "/", 2)
-			if len(ep) != 2 {
+			// data-tree path below the module: choice and case nodes are not part of it
+			var dp []string
+			for en := h.f.Entry; en != nil && en.Parent != nil; en = en.Parent {
+				if en.IsChoice() || en.IsCase() {
+					continue
+				}
+				dp = append([]string{en.Name}, dp...)
+			}
+			if len(dp) == 0 {
 				continue
 			}
-			p := "/" + ep[1]
+			p := "/" + strings.Join(dp, "/")
 			k := p + "|" + e.name
 			if seen[k] {
 				continue
